@@ -319,12 +319,13 @@ func (d *Data) writeBlocks(v dvid.VersionID, b storage.TKeyValues, wg1, wg2 *syn
 	ctx := datastore.NewVersionedCtx(d, v)
 	evt := datastore.SyncEvent{d.DataUUID(), labels.IngestBlockEvent}
 
-	server.CheckChunkThrottling()
 	blockCh := make(chan blockChange, 100)
 	svmap, err := getMapping(d, v)
 	if err != nil {
 		return fmt.Errorf("writeBlocks couldn't get mapping for data %q, version %d: %v", d.DataName(), v, err)
 	}
+	// take the handler token only once nothing can fail before the goroutine that returns it is started.
+	server.CheckChunkThrottling()
 	go d.aggregateBlockChanges(v, svmap, blockCh)
 	go func() {
 		defer func() {
